@@ -497,7 +497,7 @@ pub fn run(ctx: &Ctx) -> Report {
 
     // ---- Part A ----
     let ss = specs(!ctx.tier.is_quick());
-    let max_depth = ctx.pick(3, 4);
+    let max_depth = ctx.pick(3, 5);
     let mut total = AStats::default();
     let n = ss.len() as f64;
     for (i, s) in ss.iter().enumerate() {
